@@ -375,7 +375,7 @@ fn write_kern(pairs: &[(u16, u16, i16)]) -> Vec<u8> {
 
 // ---- generator ----------------------------------------------------------------------------------
 
-pub const GSUB_FEATURES: &[&str] = &["liga", "calt", "ccmp", "clig", "locl", "rlig", "smcp", "onum", "rvrn"];
+pub const GSUB_FEATURES: &[&str] = &["liga", "calt", "ccmp", "clig", "locl", "rlig", "smcp", "onum", "rvrn", "vert", "vrt2"];
 pub const GPOS_FEATURES: &[&str] = &["kern", "dist", "mark", "liga", "smcp"];
 pub const SCRIPTS: &[&str] = &["DFLT", "latn", "cyrl"];
 pub const LANGS: &[&str] = &["TRK ", "ROM "];
@@ -398,6 +398,14 @@ fn gen_layout(rng: &mut Rng, gpos: bool, axes: usize) -> LayoutD {
     let must = if gpos { "kern" } else { "liga" };
     if !names.contains(&must) && !rng.chance(1, 8) {
         names.push(must);
+    }
+    // `vert` and `vrt2` share one FeatureMask bit: often carry both (with different lookups)
+    if !gpos && rng.chance(2, 5) {
+        for n in ["vert", "vrt2"] {
+            if !names.contains(&n) {
+                names.push(n);
+            }
+        }
     }
     names.sort();
     let mut d = LayoutD::default();
@@ -704,7 +712,12 @@ impl GenFont {
             }
         };
         for t in &tags {
-            if let Some(ls) = d.feature_lookups(script, lang, *t, tuple) {
+            let mut found = d.feature_lookups(script, lang, *t, tuple);
+            // a mask's VRT2_OR_VERT bit means `vrt2`, falling back to `vert`
+            if found.is_none() && *t == tag("vrt2") && matches!(feat, Feat::Mask(_)) {
+                found = d.feature_lookups(script, lang, tag("vert"), tuple);
+            }
+            if let Some(ls) = found {
                 for l in ls {
                     ordered.insert(l, ());
                 }
